@@ -268,6 +268,50 @@ type JSONValue3 struct {
 	Z *Inner
 }
 
+// JSONValue4 has untyped positions: what comes back must be what a JSON decoder documents for them
+// (float64 for numbers, string, bool, nil, []interface{}, map[string]interface{}).
+type JSONValue4 struct {
+	Any interface{}
+	M   map[string]interface{}
+	L   []interface{}
+}
+
+// genUntyped generates values that are their own JSON decode image.
+func genUntyped(t *rapid.T, depth int) interface{} {
+	max := 5
+	if depth <= 0 {
+		max = 3
+	}
+	switch rapid.IntRange(0, max).Draw(t, "untypedKind") {
+	case 0:
+		return nil
+	case 1:
+		return rapid.Bool().Draw(t, "ub")
+	case 2:
+		// whole numbers and fractions alike: both are float64 after decoding
+		if rapid.Bool().Draw(t, "wholeNumber") {
+			return float64(rapid.Int32().Draw(t, "un"))
+		}
+		return genFloat().Draw(t, "uf")
+	case 3:
+		return lib.GenUTF8().Draw(t, "us")
+	case 4:
+		n := rapid.IntRange(0, 2).Draw(t, "uln")
+		l := make([]interface{}, 0, n)
+		for i := 0; i < n; i++ {
+			l = append(l, genUntyped(t, depth-1))
+		}
+		return l
+	default:
+		n := rapid.IntRange(0, 2).Draw(t, "umn")
+		m := map[string]interface{}{}
+		for i := 0; i < n; i++ {
+			m[lib.GenKey().Draw(t, "uk")] = genUntyped(t, depth-1)
+		}
+		return m
+	}
+}
+
 func genFloat() *rapid.Generator[float64] {
 	return rapid.Float64().Filter(func(f float64) bool { return !math.IsNaN(f) && !math.IsInf(f, 0) })
 }
@@ -284,7 +328,7 @@ func genInner(t *rapid.T, label string) Inner {
 }
 
 func genJSONValue(t *rapid.T) (ptr any, fresh func() any) {
-	switch rapid.IntRange(1, 3).Draw(t, "jsonType") {
+	switch rapid.SampledFrom([]int{1, 2, 3, 4, 4}).Draw(t, "jsonType") {
 	case 1:
 		v := &JSONValue1{
 			S: lib.GenUTF8().Draw(t, "S"), I: rapid.Int64().Draw(t, "I"), U: rapid.Uint32().Draw(t, "U"),
@@ -311,6 +355,15 @@ func genJSONValue(t *rapid.T) (ptr any, fresh func() any) {
 			v.Tags = rapid.SliceOfN(lib.GenUTF8(), 0, 3).Draw(t, "Tags")
 		}
 		return v, func() any { return &JSONValue2{} }
+	case 4:
+		v := &JSONValue4{Any: genUntyped(t, 2)}
+		if rapid.Bool().Draw(t, "hasM") {
+			v.M, _ = genUntyped(t, 2).(map[string]interface{})
+		}
+		if rapid.Bool().Draw(t, "hasL") {
+			v.L, _ = genUntyped(t, 2).([]interface{})
+		}
+		return v, func() any { return &JSONValue4{} }
 	default:
 		v := &JSONValue3{}
 		if rapid.Bool().Draw(t, "hasX") {
